@@ -7,8 +7,15 @@
 (* x MkdirAll in the middle of a mixed batch), then a seeded sample.           *)
 EXTENDS FileOpsDefs, TLC, Json
 
-States == { fs \in FSStates : WellFormed(fs) }
-OpenItems == { [p |-> p, mode |-> m, mk |-> k] : p \in OpenPaths, m \in Modes, k \in BOOLEAN }
+States == { [a |-> fs.a, b |-> fs.b, sub |-> fs.sub, c |-> fs.c, n |-> 0] : fs \in { f \in FSStates : WellFormed(f) } }
+OpenItems == { [p |-> p, idx |-> 0, mode |-> m, mk |-> k] : p \in OpenPaths, m \in Modes, k \in BOOLEAN }
+(* sustained large batches on one long-lived environment: `files` numbered files, `rounds`    *)
+(* consecutive batches of `batch` items over them (plus a few absent indices), every round    *)
+(* judged like any other Open                                                                *)
+Sustained == { [files |-> 250, batch |-> 250, rounds |-> 100], [files |-> 253, batch |-> 253, rounds |-> 100],
+               [files |-> 250, batch |-> 200, rounds |-> 300], [files |-> 253, batch |-> 253, rounds |-> 300],
+               [files |-> 120, batch |-> 100, rounds |-> 300] }
+NumberedItems == { [p |-> "n", idx |-> i, mode |-> m, mk |-> FALSE] : i \in 1..273, m \in {"r", "rw"} }
 LinkItems == { [link |-> l, to |-> t] : l \in LinkPaths, t \in LinkTargets }
 Shapes == { <<"open">>, <<"open", "open">>, <<"symlink", "open">>, <<"open", "delete", "open">>,
             <<"delete", "symlink", "open">>, <<"open", "symlink", "delete">>, <<"symlink", "symlink">>,
@@ -21,6 +28,8 @@ ASSUME ndJsonSerialize("linkitems.ndjson", SetToSeq(LinkItems))
 ASSUME ndJsonSerialize("deletepaths.ndjson", SetToSeq({ [p |-> p] : p \in DeletePaths }))
 ASSUME ndJsonSerialize("shapes.ndjson", SetToSeq({ [shape |-> s] : s \in Shapes }))
 ASSUME ndJsonSerialize("long.ndjson", SetToSeq({ [n |-> n] : n \in LongBatches }))
+ASSUME ndJsonSerialize("sustained.ndjson", SetToSeq(Sustained))
+ASSUME ndJsonSerialize("numbereditems.ndjson", SetToSeq(NumberedItems))
 ASSUME PrintT(<<"generated", Cardinality(States), Cardinality(OpenItems), Cardinality(LinkItems)>>)
 VARIABLE x
 Init == x = 0
